@@ -1,2 +1,146 @@
-From CubedV Require Import Model.Util Model.AsyncMap.
-Lemma placeholder : retry 0 [true] = (1, true). Proof. reflexivity. Qed.
+From CubedV Require Import Model.Util Model.AsyncMap Proofs.AsyncMapProofs.
+
+(* C08: async_map_unordered (repaired configuration) and the tenacity retry wrapper. *)
+
+Theorem C08_no_double_delivery : forall c ins script, repaired c -> batch_ok c -> NoDup ins ->
+  NoDup (map snd (yielded (run c ins script))).
+Proof. exact no_double_delivery. Qed.
+Print Assumptions C08_no_double_delivery.
+
+Theorem C08_delivered_succeeded : forall c ins script, repaired c -> batch_ok c -> NoDup ins ->
+  forall t i, In (t, i) (yielded (run c ins script)) ->
+    lookup t (completed (run c ins script)) = Some true /\
+    lookup t (tasks (run c ins script)) = Some i /\ In i ins.
+Proof. exact delivered_succeeded. Qed.
+Print Assumptions C08_delivered_succeeded.
+
+Theorem C08_submissions_bounded : forall c ins script, repaired c -> batch_ok c -> NoDup ins ->
+  forall i, nsub (run c ins script) i false <= 1 /\
+            nsub (run c ins script) i true <= nsub (run c ins script) i false.
+Proof. exact submissions_bounded. Qed.
+Print Assumptions C08_submissions_bounded.
+
+Theorem C08_submissions_real_inputs : forall c ins script, repaired c -> batch_ok c -> NoDup ins ->
+  forall f i b, In (f, (i, b)) (submitted (run c ins script)) -> In i ins.
+Proof. exact submissions_real_inputs. Qed.
+Print Assumptions C08_submissions_real_inputs.
+
+Theorem C08_never_crashes : forall c ins script, repaired c -> batch_ok c -> NoDup ins ->
+  stat (run c ins script) <> Crashed.
+Proof. exact never_crashes. Qed.
+Print Assumptions C08_never_crashes.
+
+Theorem C08_raise_is_genuine : forall c ins script, repaired c -> batch_ok c -> NoDup ins ->
+  forall t, stat (run c ins script) = Raised t ->
+  exists i, lookup t (tasks (run c ins script)) = Some i /\
+    lookup t (completed (run c ins script)) = Some false /\
+    forall f b, In (f, (i, b)) (submitted (run c ins script)) ->
+      lookup f (completed (run c ins script)) = Some false.
+Proof. exact raise_is_genuine. Qed.
+Print Assumptions C08_raise_is_genuine.
+
+Theorem C08_done_exactly_once : forall c ins script, repaired c -> batch_ok c -> NoDup ins ->
+  stat (run c ins script) = Done -> Permutation (map snd (yielded (run c ins script))) ins.
+Proof. exact done_exactly_once. Qed.
+Print Assumptions C08_done_exactly_once.
+
+Theorem C08_futures_bounded : forall c ins script, repaired c -> batch_ok c -> NoDup ins ->
+  next (run c ins script) <= 2 * length ins.
+Proof. exact futures_bounded. Qed.
+Print Assumptions C08_futures_bounded.
+
+Theorem C08_completed_bounded : forall c ins script, repaired c -> batch_ok c -> NoDup ins ->
+  NoDup (map fst (completed (run c ins script))) /\
+  length (completed (run c ins script)) <= next (run c ins script).
+Proof. exact completed_bounded. Qed.
+Print Assumptions C08_completed_bounded.
+
+Theorem C08_running_has_pending : forall c ins script, repaired c -> batch_ok c -> NoDup ins ->
+  stat (run c ins script) = Running -> pending (run c ins script) <> [].
+Proof. exact running_has_pending. Qed.
+Print Assumptions C08_running_has_pending.
+
+Theorem C08_wake_progress : forall c ins script, repaired c -> batch_ok c -> NoDup ins ->
+  forall w, stat (run c ins script) = Running ->
+    valid_fin (pending (run c ins script)) [] (fin w) <> [] ->
+    length (completed (run c ins script)) < length (completed (step c (run c ins script) w)).
+Proof. exact wake_progress. Qed.
+Print Assumptions C08_wake_progress.
+
+Theorem C08_terminal_absorbing : forall c ins script, repaired c -> batch_ok c -> NoDup ins ->
+  forall w, stat (run c ins script) <> Running -> step c (run c ins script) w = run c ins script.
+Proof. exact terminal_absorbing. Qed.
+Print Assumptions C08_terminal_absorbing.
+
+Theorem C08_retry_attempts_le : forall r o, fst (retry r o) <= S r.
+Proof. exact retry_attempts_le. Qed.
+Print Assumptions C08_retry_attempts_le.
+
+Theorem C08_retry_succeeds_iff : forall r o, r < length o ->
+  (snd (retry r o) = true <-> exists k, k <= r /\ nth k o false = true).
+Proof. exact retry_succeeds_iff. Qed.
+Print Assumptions C08_retry_succeeds_iff.
+
+Theorem C08_retry_first_success : forall r o k, r < length o -> nth k o false = true ->
+  (forall j, j < k -> nth j o false = false) -> k <= r -> retry r o = (S k, true).
+Proof. exact retry_first_success. Qed.
+Print Assumptions C08_retry_first_success.
+
+(* ---- non-vacuity: the hypotheses are satisfiable and the runs are not trivial ---- *)
+
+Example C08_cfg_ok : repaired (fixed_cfg true (Some 2) true) /\ batch_ok (fixed_cfg true (Some 2) true).
+Proof. split; [split; reflexivity|discriminate]. Qed.
+
+(* backup of 0 launched; original 0 and backup 2 finish in the same wake-up; refill;
+   backup of 1 launched; 1 fails (waits for its twin), twin 4 succeeds; 3 succeeds. *)
+Definition C08_script_done : list wake :=
+  [W [] [(0, true)]; W [(0, true); (2, true)] []; W [] [(1, true)];
+   W [(1, false)] []; W [(4, true)] []; W [(3, true)] []].
+
+Example C08_run_done :
+  let s := run (fixed_cfg true (Some 2) true) [0; 1; 2] C08_script_done in
+  stat s = Done /\ yielded s = [(3, 2); (4, 1); (0, 0)] /\ next s = 5 /\
+  submitted s = [(4, (1, true)); (3, (2, false)); (2, (0, true)); (1, (1, false)); (0, (0, false))].
+Proof. vm_compute. repeat split; reflexivity. Qed.
+
+(* same, but the backup of 1 fails as well: the exception is genuine *)
+Definition C08_script_raise : list wake :=
+  [W [] [(0, true)]; W [(0, true); (2, true)] []; W [] [(1, true)];
+   W [(1, false)] []; W [(4, false)] []].
+
+Example C08_run_raised :
+  let s := run (fixed_cfg true (Some 2) true) [0; 1; 2] C08_script_raise in
+  stat s = Raised 4 /\ yielded s = [(0, 0)] /\
+  lookup 1 (completed s) = Some false /\ lookup 4 (completed s) = Some false.
+Proof. vm_compute. repeat split; reflexivity. Qed.
+
+(* ---- the defects of the unrepaired (pinned) configuration ---- *)
+
+(* original 0 and its backup 1 complete in one wake-up: input 0 is delivered twice *)
+Example pinned_double_delivery :
+  let s := run (pinned_cfg true None true) [0] [W [] [(0, true)]; W [(0, true); (1, true)] []] in
+  stat s = Done /\ map snd (yielded s) = [0; 0].
+Proof. vm_compute. split; reflexivity. Qed.
+
+(* backup 1 succeeds and is visited first, the failed original 0 second: spurious raise *)
+Example pinned_spurious_raise :
+  let s := run (pinned_cfg true None true) [0] [W [] [(0, true)]; W [(1, true); (0, false)] []] in
+  stat s = Raised 0 /\ yielded s = [(1, 0)] /\ lookup 1 (completed s) = Some true.
+Proof. vm_compute. repeat split; reflexivity. Qed.
+
+(* batch_size 12, 24 inputs, real policy: start_times is replaced by the refill, six first-batch
+   tasks have ended, so end_times has keys missing from start_times: KeyError *)
+Example pinned_keyerror :
+  let s := run (pinned_cfg true (Some 12) false) (seq 0 24)
+             [W [(0, true)] []; W [(1, true)] []; W [(2, true)] []; W [(3, true)] [];
+              W [(4, true)] []; W [(5, true)] [(6, false)]] in
+  stat s = Crashed.
+Proof. vm_compute. reflexivity. Qed.
+
+(* the same script under the repaired configuration keeps running *)
+Example fixed_no_keyerror :
+  let s := run (fixed_cfg true (Some 12) false) (seq 0 24)
+             [W [(0, true)] []; W [(1, true)] []; W [(2, true)] []; W [(3, true)] [];
+              W [(4, true)] []; W [(5, true)] [(6, false)]] in
+  stat s = Running.
+Proof. vm_compute. reflexivity. Qed.
